@@ -138,6 +138,12 @@ def cases_quick(rng, scale=1):
         for it1 in ({'process': 'raise', 'clock': 2000}, {'recv': 'msg:error', 'clock': 2000}, {'send': 'stop', 'clock': 2000}):
             s = {'iters': [dict(it1), {'clock': 2500}, {'clock': 3000}], 'exit_after': 2000}
             cases.append({'name': 'exit_after+fault:' + form, 'prop': 'all', 'obey': 'clean', 'loop_exc': False, 'script': s, 'topo': 'both', 'exit_after_form': form})
+    # two exit announcements of different kinds in one run, the first one of a kind the obey policy ignores (all orders, both kinds,
+    # announcements at recv and send poll points)
+    for obey, prop, (k1, k2), (p1, p2) in itertools.product(L.POLICIES, ['clean', 'all'], [('error', 'clean'), ('clean', 'error'), ('clean', 'clean'), ('error', 'error')],
+                                                      [('recv', 'recv'), ('recv', 'send'), ('send', 'recv')]):
+        s = L.base_script(3); s['iters'][0] = {p1: 'msg:' + k1}; s['iters'][1] = {p2: 'msg:' + k2}
+        cases.append({'name': f'two-msgs:{k1},{k2}', 'prop': prop, 'obey': obey, 'loop_exc': True, 'script': s, 'topo': 'both'})
     # random multi-fault scripts
     for _ in range(400 * scale):
         cases.append({'name': 'random', 'prop': rng.choice(L.POLICIES), 'obey': rng.choice(L.POLICIES), 'loop_exc': rng.random() < 0.6,
